@@ -1,4 +1,5 @@
 import AcraModel.Typed.Spec
+import AcraModel.Typed.KindsLemmas
 import AcraModel.Wire.ByteaLemmas
 /-!
 # C19 — typed columns come back in the declared type or per the failure policy
@@ -405,6 +406,157 @@ theorem describe_matches_data_my (s : Setting) (t : DataType) (binary : Bool) (o
           | some d0 =>
             cases t <;> simp_all
 
+/-! ## every kind of column setting (plain, searchable, masked, tokenized) -/
+
+/-- The predicate that decides whether the PostgreSQL proxy rewrites a column's description, as it is in the source:
+`HasTypeAwareSupport` is `OnlyEncryption() || IsSearchable() || maskingSupport`, `maskingSupport` asks for a masking
+pattern and a data type id, `OnlyEncryption` tests the masking, tokenization and search bits, and exactly the three
+description handlers of the proxy consult it. Also the disjuncts of `IsBinaryDataOperation`, the data types masking may
+be combined with and the token type → data type map the model of `Init` interprets. -/
+theorem fact_type_aware_predicate :
+    Generated.Typed.typeAwareDisjuncts = ["OnlyEncryption", "IsSearchable", "maskingSupport"] ∧
+    Generated.Typed.maskingSupportRequires = ["GetMaskingPattern != \"\"", "not GetDBDataTypeID == 0"] ∧
+    Generated.Typed.onlyEncryptionMask =
+      (Generated.Typed.settingMaskingFlag ||| Generated.Typed.settingTokenizationFlag ||| Generated.Typed.settingSearchFlag) ∧
+    Generated.Typed.typeAwareCallSites = ["handleParameterDescription", "handleRowDescription", "replaceOIDsInParsePackets"] ∧
+    Generated.Typed.binaryOpDisjuncts = ["GetTokenType == TokenType_Bytes", "OnlyEncryption", "IsSearchable", "len GetMaskingPattern != 0"] ∧
+    Generated.Typed.maskingDataTypes = ["EncryptedType_String", "EncryptedType_Bytes", "EncryptedType_Unknown"] ∧
+    Generated.Typed.tokenTypeDataTypes = [("TokenType_Int32", "EncryptedType_Int32"), ("TokenType_Int64", "EncryptedType_Int64"),
+      ("TokenType_String", "EncryptedType_String"), ("TokenType_Email", "EncryptedType_String"), ("TokenType_Bytes", "EncryptedType_Bytes")] := by
+  decide
+
+/-- The option flags are distinct bits and the table of accepted combinations has the 44 entries the model of `Init`
+was validated against. -/
+theorem fact_setting_flags :
+    Generated.Typed.settingFlags.map (·.2) = (List.range 15).map (2 ^ ·) ∧
+    Generated.Typed.validSettingMasks.length = 44 := by decide
+
+/-- **Which kinds of settings `Init` accepts, and with which type options.** The configuration of a column is accepted
+exactly when the closed form `Shape.acceptsSpec` holds: a default needs a data type, the policy `default_value` and a
+text the type's encoder accepts; an encryption-only column with a data type must be re-encrypted to AcraBlocks and one
+without cannot have `response_on_fail`; a searchable column may declare a type with any policy (a default only with
+`response_on_fail` written out); a masked column may declare `str` or `bytes` (never an integer type), only as AcraBlock and
+with neither `response_on_fail` nor a default; a tokenized column has the type of its token and nothing else. -/
+theorem init_accepts (r : RawColumn) : (initColumn r).isSome = r.shape.acceptsSpec r.raw.defaultOk := by
+  rw [← accepts_eq_spec]
+  unfold initColumn
+  cases r.shape.accepts r.raw.defaultOk <;> simp
+
+/-- **Which accepted settings are type aware** (as the source's predicate, interpreted over the regenerated disjuncts,
+decides): encryption-only and searchable columns always, masked columns when they declare a data type, tokenized columns
+never (their tokens are stored under the declared type itself, which the database announces). -/
+theorem type_aware_kinds (r : RawColumn) (c : Column) (h : initColumn r = some c) :
+    hasTypeAwareSupport c =
+      (c.kind == .plain || c.kind == .searchable || (c.kind == .masked && c.setting.dataType.isSome)) := by
+  obtain ⟨_, hk, hm, _, _, _⟩ := initColumn_some r c h
+  obtain ⟨h1, h2, h3⟩ := mask_bits r.shape
+  rw [hasTypeAwareSupport_eq]
+  simp only [Column.onlyEncryption, Column.isSearchable, Column.hasMaskingPattern, Column.hasDBTypeID, hm, h1, h2, h3, hk]
+  rfl
+
+/-- A masked or tokenized column never has a failure policy other than `ciphertext` and never a default; a masked
+column never declares an integer type. (So for these kinds a reader gets the typed value or the stored value, nothing else.) -/
+theorem masked_tokenized_policy (r : RawColumn) (c : Column) (h : initColumn r = some c)
+    (hk : c.kind = .masked ∨ c.kind = .tokenized) :
+    c.setting.policy = .ciphertext ∧ c.setting.default = none ∧
+    (c.kind = .masked → c.setting.dataType ≠ some .int32 ∧ c.setting.dataType ≠ some .int64) := by
+  obtain ⟨ha, hk', _, ht, hp, hd⟩ := initColumn_some r c h
+  rw [accepts_eq_spec] at ha
+  have hks : r.shape.kind = c.kind := hk'.symm
+  obtain ⟨ho, hdf, hty⟩ := acceptsSpec_masked_tokenized r.shape _ ha (by rw [hks]; exact hk)
+  have hdn : r.raw.default = none := by
+    have : r.raw.default.isSome = false := hdf
+    cases hdv : r.raw.default <;> simp_all
+  refine ⟨?_, by rw [hd, hdn], fun hm => ?_⟩
+  · rw [hp]; unfold Shape.policy; rw [ho, hdf]; rfl
+  · rw [ht]; exact hty (by rw [hks]; exact hm)
+
+/-- **Only valid settings are accepted, whatever the kind**: the default of an accepted column is usable under the
+declared type. -/
+theorem initColumn_valid (r : RawColumn) (c : Column) (h : initColumn r = some c) :
+    validDefault c.setting ⟨r.raw.defaultB64⟩ := by
+  obtain ⟨ha, _, _, ht, _, hd⟩ := initColumn_some r c h
+  rw [accepts_defaultOk] at ha
+  have hdf : r.shape.hasDefault = r.raw.default.isSome := rfl
+  unfold validDefault
+  rw [hd, ht]
+  cases hdv : r.raw.default with
+  | none => trivial
+  | some d =>
+    simp only [Bool.and_eq_true, hdf, hdv, Option.isSome_some, Bool.not_true, Bool.false_or] at ha
+    have hok := ha.2
+    unfold RawSetting.defaultOk at hok
+    rw [hdv] at hok
+    cases hty : r.raw.dataType with
+    | none => simp [hty] at hok
+    | some t => cases t <;> simp_all
+
+/-- For an encryption-only column in the default envelope the model of `Init` for all kinds is the model the read-path
+theorems were stated with (`initSetting`). -/
+theorem initColumn_plain (raw : RawSetting) (ta : Bool) :
+    (initColumn ⟨raw, .plain, false, ta, false, true⟩).map (·.setting) = initSetting raw := by
+  have hsp := accepts_eq_spec (RawColumn.shape ⟨raw, .plain, false, ta, false, true⟩) raw.defaultOk
+  have hb : ∀ (s : Setting) (sh : Shape), sh.kind = Kind.plain → isBinaryDataOperation ⟨s, .plain, sh.mask⟩ = true :=
+    fun s sh hk => isBinaryDataOperation_of_kind s .plain sh (by simp [hk])
+  unfold initColumn
+  simp only [hsp]
+  unfold initSetting RawSetting.defaultOk Shape.acceptsSpec RawColumn.shape Shape.policy
+  obtain ⟨t, o, d, u, b64⟩ := raw
+  rcases t with _ | (_ | _ | _ | _) <;> rcases o with _ | (_ | _ | _) <;> cases d <;> simp [hb]
+
+/-- **describe_matches_data for every kind (PostgreSQL).** For an accepted column that declares type `t`:
+* encryption-only, searchable and masked columns (stored as bytea): the RowDescription and the ParameterDescription
+  announce `t`'s OID whatever the database said, the parameter type in `Parse` is replaced by bytea – and every value
+  delivered for the column decodes as `t` in the requested format, the only exception being the stored value handed
+  over under the `ciphertext` policy (`never_wrong_type_pg`);
+* tokenized columns: all three descriptions are left as the database / the client sent them. -/
+theorem describe_matches_data_pg_kinds (r : RawColumn) (c : Column) (t : DataType) (dbOid clientOid : Nat)
+    (h : initColumn r = some c) (ht : c.setting.dataType = some t) :
+    (c.kind ≠ .tokenized →
+      pgRowOid c dbOid = pgOid t ∧ pgParamOid c dbOid = pgOid t ∧ pgParseOid c clientOid = byteaOid ∧
+      ∀ (binary : Bool) (reveal : Bytes → Option Bytes) (wire x out : Bytes) (rb : Bool),
+        pgDecode c.setting binary wire = some x → x ≠ [] →
+        (∀ m, reveal x = some m → m ≠ [] ∧ (pgSpecEncode t binary m).isSome) →
+        pgTypedRead c.setting binary ⟨r.raw.defaultB64⟩ reveal wire = .value out rb →
+        pgDecodesAs t binary out ∨
+          (reveal x = none ∧ (c.setting.policy = .ciphertext ∨ (c.setting.policy = .defaultValue ∧ c.setting.default = none)) ∧
+            out = pgCipherForm t binary x)) ∧
+    (c.kind = .tokenized →
+      pgRowOid c dbOid = dbOid ∧ pgParamOid c dbOid = dbOid ∧ pgParseOid c clientOid = clientOid) := by
+  have hta := type_aware_kinds r c h
+  constructor
+  · intro hk
+    have : hasTypeAwareSupport c = true := by
+      rw [hta]
+      cases hkk : c.kind <;> simp_all
+    refine ⟨?_, ?_, ?_, ?_⟩
+    · simp [pgRowOid, pgDescribe, ht, this]
+    · simp [pgParamOid, pgDescribe, ht, this]
+    · simp [pgParseOid, this]
+    · intro binary reveal wire x out rb hx hne hrep hread
+      exact never_wrong_type_pg c.setting t binary ⟨r.raw.defaultB64⟩ reveal wire x out rb ht hx hne
+        (initColumn_valid r c h) hrep hread
+  · intro hk
+    have : hasTypeAwareSupport c = false := by rw [hta]; simp [hk]
+    simp [pgRowOid, pgParamOid, pgParseOid, pgDescribe, ht, this]
+
+/-- **describe_matches_data for every kind (MySQL).** The column definition of an accepted column of any kind that
+declares type `t` announces `t`'s type code (the rewrite does not ask whether the setting is type aware) unless the row
+processor rolled it back, and whatever value is delivered decodes under the type finally announced
+(`describe_matches_data_my` for the column's setting). -/
+theorem describe_matches_data_my_kinds (r : RawColumn) (c : Column) (t : DataType) (binary : Bool) (o : Nat)
+    (reveal : Bytes → Option Bytes) (wire out : Bytes) (rb : Bool)
+    (h : initColumn r = some c) (ht : c.setting.dataType = some t) (ho : blobLike o) (hne : wire ≠ [])
+    (hrep : ∀ m, reveal wire = some m → m ≠ [] ∧ (mySpecEncode t binary m).isSome)
+    (hread : myTypedRead c.setting binary (myTypeCode t) o ⟨r.raw.defaultB64⟩ reveal wire = .value out rb) :
+    myColumnType c o false = myTypeCode t ∧ myColumnType c o true = o ∧
+    myDecodesAs (myColumnType c o rb) binary out ∧
+    (rb = true → reveal wire = none ∧ out = lenenc wire ∧
+      (c.setting.policy = .ciphertext ∨ (c.setting.policy = .defaultValue ∧ c.setting.default = none))) := by
+  refine ⟨by simp [myColumnType, myDescribe, ht], by simp [myColumnType, myDescribe, ht], ?_⟩
+  exact describe_matches_data_my c.setting t binary o ⟨r.raw.defaultB64⟩ reveal wire out rb ht ho hne
+    (initColumn_valid r c h) hrep hread
+
 /-! ## configuration validation -/
 
 /-- **Only valid settings are accepted.** Whatever `Init` accepts has a default that is usable under the
@@ -459,5 +611,29 @@ example : myTypedRead ⟨some .int64, .ciphertext, none, true⟩ true 8 252 ⟨n
     = .value [3, 37, 37, 37] true := by decide
 
 example : blobLike 252 ∧ blobLike 253 ∧ blobLike 254 := by unfold blobLike; decide
+
+/-- what the description handlers announce for an accepted column of each kind:
+(type aware?, RowDescription and ParameterDescription for a bytea column, Parse for a parameter the client declared with
+the type's own OID, MySQL column type for a VAR_STRING column) -/
+def describeAll (r : RawColumn) (clientOid : Nat) : Option (Bool × Nat × Nat × Nat × Nat) :=
+  (initColumn r).map fun c => (hasTypeAwareSupport c, pgRowOid c 17, pgParamOid c 17, pgParseOid c clientOid, myColumnType c 253 false)
+
+/-- searchable + int32 (written by name, then by database id with `response_on_fail: error`): accepted, type aware, int4 -/
+example : describeAll ⟨⟨some .int32, none, none, true, none⟩, .searchable, false, false, false, true⟩ 23 = some (true, 23, 23, 17, 3) := by decide +kernel
+example : describeAll ⟨⟨some .int32, some .error, none, true, none⟩, .searchable, true, false, true, true⟩ 23 = some (true, 23, 23, 17, 3) := by decide +kernel
+/-- masked + str: accepted, type aware, text; masked + int32: rejected; masked + str + `response_on_fail`: rejected -/
+example : describeAll ⟨⟨some .str, none, none, true, none⟩, .masked, false, false, false, true⟩ 25 = some (true, 25, 25, 17, 254) := by decide +kernel
+example : describeAll ⟨⟨some .int32, none, none, true, none⟩, .masked, false, false, false, true⟩ 23 = none := by decide +kernel
+example : describeAll ⟨⟨some .str, some .error, none, true, none⟩, .masked, false, false, false, true⟩ 25 = none := by decide +kernel
+/-- masked without a data type: accepted, not type aware, the database's description stands -/
+example : describeAll ⟨⟨none, none, none, true, none⟩, .masked, false, false, false, true⟩ 25 = some (false, 17, 17, 25, 253) := by decide +kernel
+/-- tokenized int64: accepted, not type aware (PostgreSQL leaves the description alone), MySQL announces LONGLONG;
+a data type of its own is rejected -/
+example : describeAll ⟨⟨some .int64, none, none, true, none⟩, .tokenized, false, false, false, true⟩ 20 = some (false, 17, 17, 20, 8) := by decide +kernel
+example : describeAll ⟨⟨some .int64, none, none, true, none⟩, .tokenized, false, true, false, true⟩ 20 = none := by decide +kernel
+/-- searchable + default without `response_on_fail` is rejected, with it accepted (an encryption-only column accepts both) -/
+example : describeAll ⟨⟨some .int32, none, some [55], true, none⟩, .searchable, false, false, false, true⟩ 23 = none := by decide +kernel
+example : (describeAll ⟨⟨some .int32, some .defaultValue, some [55], true, none⟩, .searchable, false, false, false, true⟩ 23).isSome = true := by decide +kernel
+example : (describeAll ⟨⟨some .int32, none, some [55], true, none⟩, .plain, false, false, false, true⟩ 23).isSome = true := by decide +kernel
 
 end AcraModel.Props.C19
